@@ -50,27 +50,55 @@ func parseChunks(s string) [][]byte {
 	return cs
 }
 
+// execFrames delivers each frame the way the slowest legal consumer of readLoop's 32-slot channel would see
+// it: a frame returned by decodeData is only looked at (hex-dumped) once 32 later frames are queued behind it,
+// or at the end of the case. decodeData must therefore hand out frames that later reads into the same
+// connection buffer cannot change.
 func execFrames(max int, chunks [][]byte) string {
 	buf := &bytes.Buffer{}
-	var out []string
-	for _, c := range chunks {
+	type pending struct {
+		read int
+		data []byte
+	}
+	var queue []pending
+	outs := make([][]string, 0, len(chunks))
+	deliver := func(p pending) { outs[p.read] = append(outs[p.read], Hex(p.data)) }
+	render := func() string {
+		var out []string
+		for _, fs := range outs {
+			if len(fs) == 0 {
+				out = append(out, ".")
+			} else {
+				out = append(out, strings.Join(fs, "+"))
+			}
+		}
+		return strings.Join(out, ",")
+	}
+	for i, c := range chunks {
 		buf.Write(c)
 		datas, err := gnet.VerifDecodeData(buf, max)
 		if err != nil {
-			return strings.Join(out, ",") + "|err " + ErrName(err, reasons)
+			for _, p := range queue {
+				deliver(p)
+			}
+			return render() + "|err " + ErrName(err, reasons)
 		}
-		if len(datas) == 0 {
-			out = append(out, ".")
-			continue
-		}
-		var fs []string
+		outs = append(outs, nil)
 		for _, d := range datas {
-			fs = append(fs, Hex(d))
+			queue = append(queue, pending{i, d})
+			if len(queue) > msgChanCap {
+				deliver(queue[0])
+				queue = queue[1:]
+			}
 		}
-		out = append(out, strings.Join(fs, "+"))
 	}
-	return strings.Join(out, ",") + "|buf=" + Hex(buf.Bytes())
+	for _, p := range queue {
+		deliver(p)
+	}
+	return render() + "|buf=" + Hex(buf.Bytes())
 }
+
+const msgChanCap = 32
 
 func execConv(b []byte) string {
 	m, err := gnet.VerifConvertToMessage(1, b)
